@@ -7,6 +7,8 @@ use signalo_filters::wavelet::Decomposition;
 pub enum Val {
     Q(Q),
     NaN,
+    /// IEEE negative zero (`-0` on the protocol): equal to zero under `==`, a different value bit for bit
+    NegZero,
     /// bit pattern of an f64 (`x` + 16 hex digits on the protocol)
     F64(u64),
     /// bit pattern of an f32 (`y` + 8 hex digits)
@@ -16,6 +18,9 @@ pub enum Val {
 pub fn parse_val(s: &str) -> Val {
     if s == "nan" {
         return Val::NaN;
+    }
+    if s == "-0" {
+        return Val::NegZero;
     }
     if s.len() == 17 && s.starts_with('x') {
         return Val::F64(u64::from_str_radix(&s[1..], 16).expect("bad f64 bits"));
@@ -59,6 +64,7 @@ impl FromVal for f64 {
         match v {
             Val::Q(q) => q.to_f64_exact(),
             Val::NaN => f64::NAN,
+            Val::NegZero => -0.0,
             Val::F64(b) => f64::from_bits(b),
             Val::F32(_) => panic!("harness: f32 bits fed to an f64 instance"),
         }
@@ -126,7 +132,26 @@ macro_rules! from_args_single {
         }
     )*};
 }
-from_args_single!(Q, f64, f32, i64, Slope);
+from_args_single!(Q, f64, f32, i64, Slope, Fz);
+
+/// an `f64` sample that keeps the sign of a zero on the protocol (`-0`): for code that merely stores, selects or hands on
+/// samples (median, the cache wrapper), `+0.0` and `-0.0` are two different values although `==` calls them equal
+#[derive(Clone, Copy, Debug, PartialEq, PartialOrd)]
+pub struct Fz(pub f64);
+impl FromVal for Fz {
+    fn from_val(v: Val) -> Fz {
+        Fz(f64::from_val(v))
+    }
+}
+impl Render for Fz {
+    fn r(&self) -> String {
+        if self.0 == 0.0 && self.0.is_sign_negative() {
+            "-0".to_string()
+        } else {
+            self.0.r()
+        }
+    }
+}
 
 impl<T: FromVal> FromArgs for (T, T) {
     fn from_args(a: &[Val]) -> Self {
